@@ -21,7 +21,7 @@ def validate_decoded(obj):
       "(accepted classes: str, int)")
 
 def validate_encoded(string):
-  if not re.match("^[-+]?[0-9]+$", string):
+  if not re.match(r"^[-+]?[0-9]+\Z", string):
     raise gfapy.FormatError(
       "{} does not represent a valid integer\n".format(repr(string)) +
       "(it does not match the regular expression [-+]?[0-9]+)")
